@@ -14,6 +14,7 @@ import (
 	"pgregory.net/rapid"
 
 	"verif/h/am"
+	"verif/h/corpus"
 	"verif/h/emit"
 	"verif/h/gen"
 	"verif/h/hx"
@@ -215,6 +216,47 @@ func TestMetadataGraphsFromText(t *testing.T) {
 		}
 		hx.SampleCase(test, x)
 	})
+}
+
+func TestClangCorpus(t *testing.T) {
+	const test = "ClangCorpus"
+	hx.Rule(test, "clang-14 output with debug info (-g variants of corpus.ClangVariants over corpus/src; real DICompileUnit/DISubprogram/DICompositeType/DILocation graphs, TBAA and loop metadata): (1) LLVM reads the same module from the library's output, (2) printed IDs are unique and every explicit ID of the input is kept with its distinctness, (3) every reference to !N in the parsed module is the object defining !N; a module the parser rejects is discarded")
+	for i, c := range corpus.ClangCases() {
+		if !hx.Mine(i) {
+			continue
+		}
+		dbg := false
+		for _, f := range c.Flags {
+			if f == "-g" {
+				dbg = true
+			}
+		}
+		if !dbg {
+			continue
+		}
+		x := c.Text()
+		if x == "" {
+			hx.Discard("clang_rejects_combination")
+			continue
+		}
+		x = kf.RewriteDebugInfo(x, "C17", genOff["di-default-true-bools"], genOff["di-dwarfAddressSpace-zero"])
+		hx.Eval(1)
+		hx.Trace(test, "ll", x)
+		o := orc.ParsePrintPreserves(x, orc.Opts{})
+		switch o.V {
+		case orc.Discard:
+			hx.Discard("clang/" + o.Class)
+			continue
+		case orc.Violation:
+			hx.Fail(t, test, "ll", "; source: clang-14 "+c.Name()+"\n"+x, "%s", o.Describe())
+		}
+		ids, dist := defs(x)
+		checkIDs(t, test, x, o.Out, ids, dist)
+		if s := identity(o.M); s != "" {
+			hx.Fail(t, test, "ll", x, "%s", s)
+		}
+		hx.NonTrivial("clang/" + c.Name())
+	}
 }
 
 func TestUnassignedIDsThroughAPI(t *testing.T) {
